@@ -1,12 +1,13 @@
 """C12 - see DESIGN.md section 6."""
 from .. import core
-from . import structural
+from . import structural, tracesleg
 
 
 def main(chk: core.Check, replay):
     if replay:
         return core.replay_generic(chk, replay)
     structural.run(chk, "C12")
+    tracesleg.run(chk, 'C12')
 
 
 if __name__ == "__main__":
